@@ -6,6 +6,7 @@
 import Bridge.Abs
 import PtaProofs.Lemmas.Worklist
 import PtaProofs.Lemmas.SearchChar
+import PtaProofs.Lemmas.DroppedAbsent
 namespace Pta
 
 /-! ### generic helpers -/
@@ -328,7 +329,7 @@ theorem assertApplies_mkRule (mt : Str → Str → Bool) (g : PGraph Str) (s o n
       else if (Behavior.mk s o n exc).inconsistent = true then .err .ruleInconsistency
       else matchRule mt g ⟨s, o, n, exc⟩ dir subs objs := by
   unfold assertApplies mkRule
-  simp only [anythingMisused, convertAliases, configMissing, RuleConfig.behavior, Bool.false_and, Bool.false_eq_true,
+  simp only [anythingMisused, droppedAbsent, List.any_nil, convertAliases, configMissing, RuleConfig.behavior, Bool.false_and, Bool.false_eq_true,
     if_false, Bool.not_false, if_true, Option.isNone_some, Bool.or_false]
   split
   · rfl
@@ -368,7 +369,8 @@ theorem anything_congr (mt : Str → Str → Bool) (g : PGraph Str) (dir : Bool)
     (assertApplies mt { cfg := { subjects := some A, shouldNot := true, importDir := some dir, anything := true }, next := some false } g).2 =
     (assertApplies mt { cfg := { subjects := some B, shouldNot := true, importDir := some dir, anything := true }, next := some false } g).2 := by
   unfold assertApplies
-  simp only [anythingMisused, convertAliases, configMissing, RuleConfig.behavior, Option.map_some, hA, hB]
+  simp only [anythingMisused, droppedAbsent, convertAliases, configMissing, RuleConfig.behavior, Option.map_some, hA, hB,
+    droppedSubjects_of_dedup_eq A hA, droppedSubjects_of_dedup_eq B hB]
   have hA' : A ≠ [] := by intro h; simp [h] at hAe
   have hB' : B ≠ [] := by intro h; simp [h] at hBe
   simp [hA', hB', matchRule_congr mt g _ dir _ _ _ _ hc hc]
